@@ -833,7 +833,6 @@ func ruleC03Removed(w *World, r *Report) {
 	}
 }
 
-
 // ruleC03Skipped: in the session handlers, an element whose session-level operation failed is not
 // appended to the lists that go to the datapath.
 func ruleC03Skipped(w *World, r *Report) {
